@@ -8,7 +8,8 @@ EXPLANATION = ('Every unsafe operation of crate logos (calls of unsafe fns, raw 
                'that edge; the two unchecked slicing sites use exactly span() and token_end..len, whose invariant is preserved by the closed, '
                'audited writer sets of token_start/token_end; the forbid_unsafe build has no unsafe operation, carries forbid(unsafe_code) and reads through '
                'the checked sub-slice with the same Some-condition. Generated code is checked (genscan) to contain no unsafe, to touch the source only through lex.read and to pass in-range offsets to lex.end.'
-               ' Since the E5 engine: G19 + G20 (per definition) exclude an early record on an end-of-input successor (the only way a generated lexer can hand end = len + 1 to the runtime).')
+               ' Since the E5 engine: G19 + G20 (per definition) exclude an early record on an end-of-input successor (the only way a generated lexer can hand end = len + 1 to the runtime).'
+               ' Added in round 8: the UTF-8 acceptance gate of generate covers every pattern of a str definition, skip patterns included (M-C04a, must-reject group non_utf8_in_str_mode): items begin and end on char boundaries, on which the unchecked str slicing of slice()/remainder() relies.')
 
 
 def run(ctx, rep):
